@@ -370,6 +370,9 @@ class Project:
             nm = node.id
             f = func
             while f is not None:
+                li = self._local_imports(f)
+                if nm in li:
+                    return li[nm]
                 if nm in f.locals:
                     return "$" + nm
                 f = f.parent
@@ -388,6 +391,22 @@ class Project:
             if isinstance(node.func, ast.Name) and node.func.id == "super":
                 return "$super"
         return None
+
+    def _local_imports(self, f):
+        li = getattr(f, "_local_imports", None)
+        if li is None:
+            li = {}
+            for n in walk_own(f.node):
+                if isinstance(n, ast.Import):
+                    for al in n.names:
+                        local = al.asname or al.name.split(".")[0]
+                        li[local] = self._canon_mod(al.name if al.asname else al.name.split(".")[0])
+                elif isinstance(n, ast.ImportFrom):
+                    for al in n.names:
+                        full = (n.module + "." if n.module else "") + al.name
+                        li[al.asname or al.name] = self._canon_mod(full)
+            f._local_imports = li
+        return li
 
     def resolve_call(self, call, func):
         """Return (funcs, dotted): the package functions a call may reach and
